@@ -3,10 +3,14 @@
 package gtab
 
 import (
+	"seehuhn.de/go/postscript/funit"
+
 	"seehuhn.de/go/sfnt/glyph"
+	"seehuhn.de/go/sfnt/opentype/anchor"
 	"seehuhn.de/go/sfnt/opentype/classdef"
 	"seehuhn.de/go/sfnt/opentype/coverage"
 	"seehuhn.de/go/sfnt/opentype/gdef"
+	"seehuhn.de/go/sfnt/opentype/markarray"
 )
 
 // VerifH_C07_reader: whatever the subtable readers accept from arbitrary bytes can be applied at every
@@ -182,4 +186,65 @@ func VerifH_C07_scratch() {
 	got2 := ctx.Apply(refCopy(seq))
 	verifAssert(sameSeq(got2, want), "scratch: a second Apply on the same Context equals the reference")
 	verifReach("applied")
+}
+
+// VerifH_C07_gposmut: the GPOS subtable readers on every encoding that differs from a valid subtable
+// (single, pair, class pair, cursive, mark-to-base, mark-to-mark) in one arbitrary 16-bit word: whatever the
+// reader accepts is applied to a symbolic glyph sequence without a panic (out-of-range class, mark-class,
+// count and offset values included) and can be re-encoded.
+func VerifH_C07_gposmut() {
+	kind := verifChoose("kind", 7)
+	vr := &GposValueRecord{XAdvance: 5}
+	an := func(x, y int16) anchor.Table { return anchor.Table{X: funit.Int16(x), Y: funit.Int16(y)} }
+	var st Subtable
+	var lt uint16
+	switch kind {
+	case 0:
+		st, lt = &Gpos1_1{Cov: coverage.Table{1: 0, 2: 1}, Adjust: vr}, 1
+	case 1:
+		st, lt = &Gpos1_2{Cov: coverage.Table{1: 0, 2: 1}, Adjust: []*GposValueRecord{vr, {YPlacement: 3}}}, 1
+	case 2:
+		st, lt = Gpos2_1{glyph.Pair{Left: 1, Right: 2}: &PairAdjust{First: vr}, glyph.Pair{Left: 2, Right: 1}: &PairAdjust{First: vr, Second: vr}}, 2
+	case 3:
+		st, lt = &Gpos2_2{Cov: coverage.Set{1: true, 2: true}, Class1: classdef.Table{2: 1}, Class2: classdef.Table{1: 1},
+			Adjust: [][]*PairAdjust{{{First: vr}, {First: vr}}, {{First: vr}, {First: vr, Second: vr}}}}, 2
+	case 4:
+		st, lt = &Gpos3_1{Cov: coverage.Table{1: 0, 2: 1}, Records: []EntryExitRecord{{Entry: an(1, 2), Exit: an(3, 4)}, {Exit: an(5, 6)}}}, 3
+	case 5:
+		st, lt = &Gpos4_1{MarkCov: coverage.Table{3: 0, 4: 1}, BaseCov: coverage.Table{1: 0, 2: 1},
+			MarkArray: []markarray.Record{{Class: 0, Table: an(1, 1)}, {Class: 1, Table: an(2, 2)}},
+			BaseArray: [][]anchor.Table{{an(10, 10), an(20, 20)}, {an(30, 30), an(40, 40)}}}, 4
+	default:
+		st, lt = &Gpos6_1{Mark1Cov: coverage.Table{3: 0, 4: 1}, Mark2Cov: coverage.Table{1: 0, 2: 1},
+			Mark1Array: []markarray.Record{{Class: 0, Table: an(1, 1)}, {Class: 1, Table: an(2, 2)}},
+			Mark2Array: [][]anchor.Table{{an(10, 10), an(20, 20)}, {an(30, 30), an(40, 40)}}}, 6
+	}
+	enc := st.encode()
+	verifAssert(len(enc) == st.encodeLen(), "encodeLen consistent")
+	pos := 2 * verifChoose("word", len(enc)/2)
+	enc[pos], enc[pos+1] = verifU8("hi"), verifU8("lo")
+	if kind <= 3 && (pos == 4 || (pos == 6 && kind >= 2)) {
+		// value formats: vertical advance and device offsets are declared unimplemented by the library
+		// (GposValueRecord.Apply panics "not implemented") and excluded by the property
+		verifAssume(enc[pos] == 0 && enc[pos+1]&0xF8 == 0)
+	}
+	meta := &LookupMetaInfo{LookupType: lt}
+	verifLoopCut(verifParam("loopcut", 8))
+	got, err := readGposSubtable(verifParser(enc), 0, meta)
+	if err != nil {
+		verifReach("rejected")
+		return
+	}
+	verifReach("accepted")
+	ll := LookupList{{Meta: meta, Subtables: []Subtable{got}}}
+	seq := make([]glyph.Info, 2+verifChoose("len", 2))
+	for i := range seq {
+		g := glyph.ID(verifU16("gid"))
+		verifAssume(g <= 5)
+		seq[i] = glyph.Info{GID: g, Text: []rune{rune('a' + i)}, Advance: 100}
+	}
+	out := NewContext(ll, nil, []LookupIndex{0}).Apply(seq)
+	verifAssert(len(out) == len(seq), "positioning keeps the sequence length")
+	e2 := got.encode()
+	verifAssert(len(e2) == got.encodeLen(), "encodeLen consistent for accepted subtables")
 }
